@@ -169,6 +169,13 @@ func ZZ_ES() {
 				break
 			}
 			sends = append(sends, sendRec{evN, 0, snd, mark()})
+			if zzrt.NondetBool("eventValuedMessage") {
+				// the undeliverable message may be any value, also one of the engine's own event types (a handler
+				// that forwards the dead letters it receives to an auditor that has since stopped)
+				guard(func() { e.SendWithSender(ghost, DeadLetterEvent{Target: foreign, Message: zzUser{Seq: evN}}, snd) })
+				zzrt.Reach("event-valued-message")
+				break
+			}
 			guard(func() { e.SendWithSender(ghost, zzUser{Seq: evN}, snd) })
 		case 4: // send to a foreign address, no remote configured
 			evN++
@@ -213,7 +220,11 @@ func ZZ_ES() {
 				for _, g := range subs[i].Got {
 					switch ev := g.Msg.(type) {
 					case DeadLetterEvent:
-						if u, ok := ev.Message.(zzUser); ok && u.Seq == sr.n {
+						inner := ev.Message
+						if w, ok := inner.(DeadLetterEvent); ok {
+							inner = w.Message // an event-valued message: the original is one level down
+						}
+						if u, ok := inner.(zzUser); ok && u.Seq == sr.n {
 							n++
 							zzrt.Assert(sr.kind == 0, "C09:dead-letter-for-foreign-target")
 							zzrt.Assert(ev.Target == ghost && ev.Sender == sr.sender, "C09:dead-letter-loses-target-or-sender")
